@@ -235,17 +235,19 @@ def entries(tier):
         yield f"ode.solve_ode_{driver}.func/{mode}/{'transform' if with_tf else 'plain'}", [ode, rt], setup
 
     # --- Becke weights
-    def becke_setup(route):
-        pts = ro(S("p", 2, 3))
-        at = ro(S("A", 2, 3))
-        nums = ro(np.array([1, 8]))
-        ind = ro(np.array([0, 1, 2]))
+    def becke_setup(route, natom=2):
+        pts = ro(S("p", natom, 3))
+        at = ro(S("A", natom, 3))
+        nums = ro(np.array([1, 8, 6, 7, 1][:natom]))
+        ind = ro(np.arange(natom + 1))
         b = bk.BeckeWeights(order=1)
         calls = dict(call=lambda: b(pts, at, nums, ind), generate=lambda: b.generate_weights(pts, at, nums, pt_ind=ind), atom=lambda: b.compute_atom_weight(pts, at, nums, 0),
                      all=lambda: b.compute_weights(pts, at, nums, pt_ind=ind))
         return dict(inputs=dict(points=pts, atcoords=at, atnums=nums, indices=ind), call=calls[route], assume=[])
     for route in ("call", "generate", "atom", "all"):
         yield f"BeckeWeights.{route}", [bk], (lambda route=route: becke_setup(route))
+    # four atoms: 10*N // M**2 < N, so __call__ walks more than one chunk of points
+    yield "BeckeWeights.call/4atoms-chunked", [bk], (lambda: becke_setup("call", 4))
 
 
 # ----------------------------------------------------------------------------- concrete entry points (Poisson option dictionaries)
